@@ -374,7 +374,7 @@ def gen_find_masks(bdir):
 class C07(Prop):
     id = "C07"
     title = "calls reach the right function and respect visibility, whatever came before"
-    lean_modules = ["NV.C07.Props", "NV.C07.Witness", "NV.C07.OracleTests", "NV.C07.LemmasCompress", "NV.C07.Tie"]
+    lean_modules = ["NV.C07.Props", "NV.C07.Witness", "NV.C07.OracleTests", "NV.C07.LemmasCompress", "NV.C07.Tie", "NV.C07.LemmasBinary"]
     theorems = ["NV.C07.visibility_table", "NV.C07.visibility_any_flags", "NV.C07.visibility_lifted",
                 "NV.C07.driver_origins_never_refused", "NV.C07.bsearch_correct", "NV.C07.find_function_correct",
                 "NV.C07.find_offsets_are_path_sums", "NV.C07.cache_transparent_step", "NV.C07.cache_transparent",
@@ -383,9 +383,12 @@ class C07(Prop):
                 "NV.C07.find_func_entry_compress", "NV.C07.compressWith_lookup", "NV.C07.fillGo_spec", "NV.C07.inhSearch_spec",
                 "NV.C07.remake_expected", "NV.C07.chaseC_eq_chase",
                 "NV.C07.slotOf_formula", "NV.C07.cacheMask_is_size_minus_one", "NV.C07.slotOf_lt", "NV.C07.find_masks_are_source",
-                "NV.C07.name_masks_are_source", "NV.C07.cmp_marker_is_byte_max"]
+                "NV.C07.name_masks_are_source", "NV.C07.cmp_marker_is_byte_max",
+                "NV.C07.permute_slot_entry", "NV.C07.permute_ft_mem", "NV.C07.permute_keeps_rest", "NV.C07.sortIdx_isPerm",
+                "NV.C07.resort_slot_entry", "NV.C07.inversePerm_getElem"]
     witness_theorems = ["NV.C07.Witness.old_cache_not_transparent", "NV.C07.Witness.origin_stored_once_runs_static",
-                        "NV.C07.Witness.old_compress_overflow_branch_loses_entries"]
+                        "NV.C07.Witness.old_compress_overflow_branch_loses_entries",
+                        "NV.C07.Witness.temp_instead_of_inverse_misdispatches"]
     consts = [("applyCacheBits", "APPLY_CACHE_BITS"),
               ("nameInherited", "NAME_INHERITED"), ("nameUndefined", "NAME_UNDEFINED"),
               ("namePrototype", "NAME_PROTOTYPE"), ("nameDefByInherit", "NAME_DEF_BY_INHERIT"),
@@ -448,7 +451,11 @@ class C07(Prop):
                    "program deallocation and reuse of a program_t address while a cache entry still names it (the id test of the "
                    "hit path): cannot be exercised under ASan, whose quarantine never hands the address out again",
                    "find_function_by_name / ffbn_recurse / function_exists (second copy of the search)",
-                   "programs loaded from saved binaries (see C17)"]
+                   "programs loaded from saved binaries: sort_function_table IS modelled (permuteProgram / resortProgram) with "
+                   "`permute_slot_entry` / `resort_slot_entry` proved for every permutation, and reloaded programs are compared "
+                   "(table, compressed table, dispatch) with a fresh build under the new name order; NOT covered: the other "
+                   "fix-ups of load_binary (string switch tables, line numbers, argument types, inherit relinking by name), "
+                   "a reload in another driver process, out-of-date / damaged binaries (C17)"]
 
     def gen_extra(self, ctx, bdir):
         return gen_function_visible(bdir) + "\n" + gen_apply_hash(bdir) + "\n" + gen_find_masks(bdir)
@@ -616,6 +623,25 @@ class C07(Prop):
         # (repaired defect: corpus/C07/compress-overflow-260.case)
         for N in (254, 255, 256, 257, 300):
             mk("compress-wide-%d" % N, self.wide_case(N))
+        # programs saved with #pragma save_binary and RELOADED from the binary while their function names live at other
+        # addresses: sort_function_table re-sorts the table; rotations (long cycles), a reversal, a 3-cycle, the identity
+        fns = ["f%d" % i for i in range(6)]
+        bing = ["savebin",
+                "prog p0 " + " ".join("d:%s:%s:-" % ("static" if i == 3 else "-", f) for i, f in enumerate(fns))
+                + " d:-:f6:" + "+".join("L" + f for f in fns) + " d:static:heart_beat:Lf2+Ff4",
+                "prog p1 i:-:p0 p:-:f9 d:-:f2:S*.f2+Lf0 d:private:f4:- d:-:f7:Lf1+Ff3+Lf2+Lf4+Lf6",
+                "prog p2 i:-:p0 i:private:p1 d:-:f8:Lf7+Lf2+Sp0.f4 d:-:f0:S*.f0"]
+        allf = fns + ["f6", "f7", "f8", "f9", "heart_beat", "nosuch"]
+        calls = ["call co o0 f6", "call co o1 f7", "call drv o2 f8", "call co o2 f4", "call co o2 f0", "call hb o0 heart_beat",
+                 "call hb o2 heart_beat", "call co o1 f3", "call drv o1 f3", "call co o2 nosuch", "call cos =p1 f7"]
+        lds = ["ld o0 p0", "ld o1 p1", "ld o2 p2", "dump o0 o1 o2"]
+        perms = {"rot1": allf[1:] + allf[:1], "rot3": allf[3:] + allf[:3], "rev": allf[::-1],
+                 "cyc3": [allf[1], allf[2], allf[0]] + allf[3:], "ident": list(allf)}
+        for pn, order in perms.items():
+            mk("binary-reload-" + pn, bing + ["names " + " ".join(allf)] + lds + calls[:4]
+               + ["reload " + " ".join(order)] + lds + calls)
+        mk("binary-reload-twice", bing + ["names " + " ".join(allf)] + lds + calls[:3] + ["reload " + " ".join(perms["rot1"])]
+           + lds + calls[:5] + ["reload " + " ".join(perms["rot3"])] + lds + calls)
         return B
 
     @staticmethod
@@ -717,6 +743,12 @@ class C07(Prop):
             objs.append(oid)
             lines.append("ld %s %s" % (oid, p))
         lines.append("dump " + " ".join(objs))
+        # one case in five saves its programs as binaries and reloads everything in the middle of the history, with the
+        # function names re-created in a random address order
+        savebin = rng.chance(1, 5)
+        reload_at = -1
+        if savebin:
+            lines.insert(0, "savebin")
         last = None
         def target_elem():
             k = rng.weighted([("oid", 6), ("path", 4), ("nofile", 1), ("int", 1)])
@@ -725,7 +757,18 @@ class C07(Prop):
             if k == "path":
                 return "=" + rng.choice(order)       # the named object: loaded already, or loaded by this call
             return "=nofile" if k == "nofile" else "0"
-        for _ in range(rng.range(12, 45)):
+        total = rng.range(12, 45)
+        if savebin:
+            reload_at = rng.range(2, max(3, total // 2))
+        for step in range(total):
+            if step == reload_at:
+                allnames = fpool + extra + [x for x in ("heart_beat", "create") if x not in fpool]
+                lines.append("reload " + " ".join(rng.shuffle(allnames)))
+                for i, oid in enumerate(objs):
+                    lines.append([l for l in lines if l.startswith("ld %s " % oid)][0])
+                lines.append("dump " + " ".join(objs))
+                last = None
+                continue
             k = rng.weighted([("call", 30), ("cold", 2), ("evict", 3), ("again", 8), ("coa", 5), ("cos", 4)])
             if k in ("coa", "cos"):
                 fn = rng.choice(fpool) if rng.chance(9, 10) else rng.choice(extra)
@@ -756,7 +799,7 @@ class C07(Prop):
         return [self.gen_case(rng, "g%d" % i) for i in range(n)]
 
     def histogram(self, cases, impl):
-        h = {"calls": 0, "bodies_run": 0, "refused_or_absent": 0, "errors": 0, "load_failed": 0, "cold": 0, "evict": 0,
+        h = {"savebin_cases": 0, "reloads": 0, "programs_loaded_from_binaries": 0, "calls": 0, "bodies_run": 0, "refused_or_absent": 0, "errors": 0, "load_failed": 0, "cold": 0, "evict": 0,
              "by_origin": {}, "programs": 0, "max_depth": 0, "multi_inherit_programs": 0, "alias_slots": 0,
              "super_calls": 0, "local_calls": 0, "fp_calls": 0, "prototypes": 0, "inherit_mods": {}}
         for c in cases:
@@ -794,6 +837,10 @@ class C07(Prop):
                 t = l.split()
                 if not t:
                     continue
+                if t[0] == "savebin":
+                    h["savebin_cases"] += 1
+                elif t[0] == "reload":
+                    h["reloads"] += 1
                 if t[0] == "call":
                     h["calls"] += 1
                     h["by_origin"][t[1]] = h["by_origin"].get(t[1], 0) + 1
@@ -815,6 +862,8 @@ class C07(Prop):
                     if ni > 1:
                         h["multi_inherit_programs"] += 1
             for l in impl.get(c.id, []):
+                if l.startswith("binloads "):
+                    h["programs_loaded_from_binaries"] += int(l.split()[1])
                 if l.startswith("run "):
                     h["bodies_run"] += 1
                 elif l == "ret !no":
